@@ -222,6 +222,11 @@ def scan(f, pos):
             # string, we need to read more data.
             s = l_ + 1
             if s > len(data) - 8:
+                if l_ == 0:
+                    # Even with the period at the start of the buffer,
+                    # fewer than 8 bytes follow it: we are at the end of
+                    # the file and there is no further transaction.
+                    return 0
                 pos += l_
                 break
             tl = u64(data[s:s + 8])
@@ -341,7 +346,8 @@ def recover(inp, outp, verbose=0, partial=False, force=False, pack=None):
 
         nrec = 0
         try:
-            for r in txn:
+            records = iter(txn)
+            for r in records:
                 if verbose > 1:
                     if r.data is None:
                         l_ = "bp"
@@ -352,6 +358,11 @@ def recover(inp, outp, verbose=0, partial=False, force=False, pack=None):
                 ofs.restore(r.oid, r.tid, r.data, '', r.data_txn,
                             txn)
                 nrec += 1
+            if records._pos != records._tend:
+                # The record iterator stops silently at a data record
+                # that does not fit the transaction: the rest of the
+                # transaction is unreadable.
+                error("invalid data record at %s", records._pos)
         except (KeyboardInterrupt, SystemExit):
             raise
         except Exception as err:
